@@ -13,6 +13,7 @@ Oracle, from the simulated disk and the simulator's own operation log:
   * fault-free: nothing but the designed drop of the oldest copy ever removes a record, and
     the files end with the last record written;
   * a file is rotated only when it has reached the size threshold;
+  * crash-free: after every logger run the last completed flush is less than one flush interval old;
   * after a death every record written before the most recent completed flush is present;
   * with reuse, a new process is then started on the surviving image (same directory) and logs a
     second stream to completion: the same clauses must hold for the files it leaves (the records
@@ -50,7 +51,7 @@ class C23(Check):
     level = "fault_enumeration"
     engine = "logsim"
     design_ref = "§6 C23"
-    rule = ("configurations keep in {1,2,3} x cycle period in {0.25,0.5,1,2} x size threshold in {0,20,60,200} x flush interval in "
+    rule = ("configurations keep in {1,2,3} x cycle period in {0.25,0.5,1,2} x size threshold in {0,20,60,200,100000} x flush interval in "
             "{1,2} x reuse x logger period, 6-40 ticks of a unique-valued record stream ('always' rule); per configuration one "
             "crash-free run, then one run per kill point (every simulated file-system call; all if <= 70 else 70 spread evenly), "
             "each killed run with reuse followed by a restart of the house on the surviving image logging a second stream, that "
@@ -63,7 +64,7 @@ class C23(Check):
     assumptions = ["'dies' = process death: kernel-visible file state survives, user-space buffers do not; power loss is not modelled",
                    "records rotated out by design (the copy beyond 'keep') are not 'lost'",
                    "after a death an empty header-less newest file is not a violation"]
-    required_probes = ["rotated", "killed-mid-rotation", "killed-with-unflushed", "size-gated", "io-error-branch", "designed-drop", "restarted-after-kill", "killed-twice"]
+    required_probes = ["rotated", "killed-mid-rotation", "killed-with-unflushed", "size-gated", "io-error-branch", "designed-drop", "restarted-after-kill", "killed-twice", "flush-schedule-checked"]
     quick_runs = 120
     thorough_runs = 6000
     shrink_fields = []
@@ -72,7 +73,7 @@ class C23(Check):
         g = S.gen
         ticks = g.randint(6, 40)
         return {"P": "0.25", "ticks": ticks, "keep": g.choice([1, 2, 3]), "cycle": g.choice(["0.25", "0.5", "1.0", "2.0"]),
-                "size": g.choice([0, 20, 60, 200]), "flush": g.choice(["1.0", "2.0"]), "reuse": g.random() < 0.6,
+                "size": g.choice([0, 20, 60, 200, 100000]), "flush": g.choice(["1.0", "2.0"]), "reuse": g.random() < 0.6,
                 "lperiod": g.choice([None, None, "0.5"]), "kill": None, "faults": {}}
 
     def directed(self):
@@ -261,6 +262,20 @@ class C23(Check):
                            "stream positions %r of %d; retained %r" % (missing[:10], len(S), seen[:3] + ["..."] + seen[-3:]))
             if faults:
                 out.probe("io-error-branch")
+            elif res is not None and float(plan["flush"]) > 0:
+                # the flush interval: after every logger run, the last completed flush of the main file is less than one interval old
+                # (counted from the start of this process; a rotation attempt flushes too)
+                epoch = getattr(fs, "deaths", 0)
+                ftimes = sorted(t for (ep, t, p) in fs.fsync_times if ep == epoch and t is not None and p == main)
+                F = float(plan["flush"])
+                for e in res.trace:
+                    if e[2] == "sent" and e[3] == "lg" and e[5] in (1, 2):
+                        t = e[1]
+                        last = max([x for x in ftimes if x <= t + 1e-9] or [0.0])
+                        if t - last >= F - 1e-9:
+                            return bad("flush-overdue", "no flush within the flush interval [%s]" % sig_cfg,
+                                       "logger ran at t=%s, last completed flush of the main file at t=%s, flush interval %s (flushes at %r)" % (t, last, F, ftimes[:12]))
+                out.probe("flush-schedule-checked")
             if must is not None:
                 gone = [pos[t] for t in must[1] if t in pos and pos[t] not in seen and pos[t] not in designed]
                 if gone:
